@@ -15,6 +15,10 @@ its own accumulator and that the accumulators are added after all threads were j
 import Model.Likelihood
 import Proofs.Likelihood
 import Proofs.LikelihoodReal
+import Model.LikSession
+import Proofs.LikSession
+import Model.DbSplit
+import Proofs.DbSplit
 
 open Likelihood
 
@@ -350,5 +354,261 @@ theorem scaled_derivatives (panel : Option (List Int)) (nRows T i j : ℕ) (w : 
   rw [gradient_sum w g _ T i hM hT, hessian_sum w h _ T i j hM hT hsym, bhhh_sum w g _ T i j hM hT]
   unfold reported scaledBy
   simp
+
+
+/-! ### round 3 — the whole option matrix of `calculate_likelihood_and_derivatives`
+
+`agg scaled M t` is the property's aggregate: Σ over the observations `0 … M−1` of `t`, divided by the
+sample size `M` when `scaled`. -/
+
+/-- **for every combination of `scaled`, `hessian`, `bhhh`** (8 cells), every data base (rows or
+individuals), every thread parameter (0 included): the function value, every gradient entry, every entry
+of the Hessian *if requested* and every entry of the BHHH matrix *if requested* are the weighted sums of
+the per-observation quantities, all divided by the same sample size when `scaled`; a matrix that was
+not requested carries no value. -/
+theorem option_matrix (o : Obs ℝ) (K : ℕ) (panel : Option (List Int)) (nRows param cpu : ℕ)
+    (scaled hessian bhhh : Bool) (hM : 1 ≤ sampleSize panel nRows) (hcpu : 1 ≤ cpu)
+    (hsym : ∀ n a b, o.h n a b = o.h n b a) :
+    (likelihoodAndDerivatives o K panel nRows param cpu scaled hessian bhhh).f
+      = agg scaled (sampleSize panel nRows) (term o.w o.l) ∧
+    (likelihoodAndDerivatives o K panel nRows param cpu scaled hessian bhhh).g
+      = (List.range K).map (fun i => agg scaled (sampleSize panel nRows) (term o.w fun n => o.g n i)) ∧
+    (likelihoodAndDerivatives o K panel nRows param cpu scaled hessian bhhh).h
+      = (if hessian then some (matrixOf K fun i j =>
+          agg scaled (sampleSize panel nRows) (term o.w fun n => o.h n i j)) else none) ∧
+    (likelihoodAndDerivatives o K panel nRows param cpu scaled hessian bhhh).b
+      = (if bhhh then some (matrixOf K fun i j =>
+          agg scaled (sampleSize panel nRows) (bhhhTerm o.w o.g i j)) else none) := by
+  have hT := (threads_resolved param cpu hcpu).1
+  refine ⟨?_, ?_, ?_, ?_⟩
+  · simp only [likelihoodAndDerivatives, engineDerivs, Derivs.map]
+    unfold loglike
+    rw [sum_blocks _ _ _ _ hM hT, reported_agg]
+  · simp only [likelihoodAndDerivatives, engineDerivs, Derivs.map, List.map_map]
+    apply List.map_congr_left
+    intro i _
+    simp only [Function.comp]
+    rw [gradient_sum _ _ _ _ i hM hT, reported_agg]
+  · cases hessian
+    · simp [likelihoodAndDerivatives, engineDerivs, Derivs.map]
+    · simp only [likelihoodAndDerivatives, engineDerivs, Derivs.map, if_true, Option.map_some,
+        matrixOf_map]
+      congr 1
+      apply matrixOf_congr
+      intro i j
+      rw [hessian_sum _ _ _ _ i j hM hT hsym, reported_agg]
+  · cases bhhh
+    · simp [likelihoodAndDerivatives, engineDerivs, Derivs.map]
+    · simp only [likelihoodAndDerivatives, engineDerivs, Derivs.map, if_true, Option.map_some,
+        matrixOf_map]
+      congr 1
+      apply matrixOf_congr
+      intro i j
+      rw [bhhh_sum _ _ _ _ i j hM hT, reported_agg]
+
+/-- the function value and the gradient do not depend on which matrices are requested, and a requested
+matrix does not depend on whether the other one is requested -/
+theorem option_independent (o : Obs ℝ) (K : ℕ) (panel : Option (List Int)) (nRows param cpu : ℕ)
+    (scaled hs bh hs' bh' : Bool) :
+    (likelihoodAndDerivatives o K panel nRows param cpu scaled hs bh).f
+      = (likelihoodAndDerivatives o K panel nRows param cpu scaled hs' bh').f ∧
+    (likelihoodAndDerivatives o K panel nRows param cpu scaled hs bh).g
+      = (likelihoodAndDerivatives o K panel nRows param cpu scaled hs' bh').g ∧
+    (likelihoodAndDerivatives o K panel nRows param cpu scaled true bh).h
+      = (likelihoodAndDerivatives o K panel nRows param cpu scaled true bh').h ∧
+    (likelihoodAndDerivatives o K panel nRows param cpu scaled hs true).b
+      = (likelihoodAndDerivatives o K panel nRows param cpu scaled hs' true).b := by
+  simp [likelihoodAndDerivatives, engineDerivs, Derivs.map]
+
+/-- the function handed to the optimiser (`NegativeLikelihood._f`, `._f_g`, `._f_g_h`): minus the
+**unscaled** sums, gradient and Hessian included; `_f_g` carries no Hessian, none carries a BHHH -/
+theorem optimiser_function (o : Obs ℝ) (K : ℕ) (panel : Option (List Int)) (nRows param cpu : ℕ)
+    (hessian : Bool) (hM : 1 ≤ sampleSize panel nRows) (hcpu : 1 ≤ cpu)
+    (hsym : ∀ n a b, o.h n a b = o.h n b a) :
+    negF o panel nRows param cpu = - agg false (sampleSize panel nRows) (term o.w o.l) ∧
+    (negDerivs o K panel nRows param cpu hessian).f
+      = - agg false (sampleSize panel nRows) (term o.w o.l) ∧
+    (negDerivs o K panel nRows param cpu hessian).g
+      = (List.range K).map (fun i => - agg false (sampleSize panel nRows) (term o.w fun n => o.g n i)) ∧
+    (negDerivs o K panel nRows param cpu hessian).h
+      = (if hessian then some (matrixOf K fun i j =>
+          - agg false (sampleSize panel nRows) (term o.w fun n => o.h n i j)) else none) ∧
+    (negDerivs o K panel nRows param cpu hessian).b = none := by
+  have hT := (threads_resolved param cpu hcpu).1
+  obtain ⟨hf, hg, hh, hb⟩ := option_matrix o K panel nRows param cpu false hessian false hM hcpu hsym
+  refine ⟨?_, ?_, ?_, ?_, ?_⟩
+  · unfold negF loglike
+    rw [sum_blocks _ _ _ _ hM hT, reported_agg]
+  · simp only [negDerivs, Derivs.map] at *
+    rw [hf]
+  · simp only [negDerivs, Derivs.map] at *
+    rw [hg, List.map_map]
+    apply List.map_congr_left
+    intro i _
+    simp
+  · simp only [negDerivs, Derivs.map] at *
+    rw [hh]
+    cases hessian
+    · simp
+    · simp only [if_true, Option.map_some, matrixOf_map]
+  · simp only [negDerivs, Derivs.map] at *
+    rw [hb]; simp
+
+example : agg true 2 (fun n => if n = 0 then 3 else 5) = 4 := by
+  unfold agg; norm_num [List.range_succ]
+
+example : (likelihoodAndDerivatives (α := ℝ) ⟨none, fun _ => 1, fun _ _ => 1, fun _ _ _ => 0⟩ 2 none 3 0 4
+    true false true).h = none := by
+  simp [likelihoodAndDerivatives, engineDerivs, Derivs.map]
+
+/-! ### round 3 — histories on ONE data base shared by several objects
+
+`Sess` (Model/LikSession.lean): `Database.data` / `fullData` (one pandas object until the first
+`BIOGEME(…)` rebinds `data`), one engine copy per object; `build`, `edit` (scale_column / add_column /
+define_variable / remove), `estimate` with or without bootstrap, `query`. -/
+
+/-- **after an estimation with bootstrap the engine of the object holds the CURRENT table of the data
+base** — in every state, i.e. whatever objects were built and whatever edits were made before; the table
+itself is untouched -/
+theorem bootstrap_restores {τ : Type} (s : Sess τ) (k : ℕ) (rs : List (τ → τ))
+    (hk : k < s.engines.length) :
+    (s.step (.estimate k (some rs))).engines[k]? = some s.data ∧
+    (s.step (.estimate k (some rs))).data = s.data ∧
+    ∀ j, j ≠ k → (s.step (.estimate k (some rs))).engines[j]? = s.engines[j]? := by
+  refine ⟨?_, rfl, ?_⟩
+  · simp [Sess.step, setDataSeq_last, hk]
+  · intro j hj
+    simp only [Sess.step]
+    rw [List.getElem?_set_ne (Ne.symm hj)]
+
+/-- **for every history** (objects built, edits in place, estimations with and without bootstrap, calls
+in any order): every object built — or estimated with bootstrap — since the last edit holds the current
+table in its engine -/
+theorem session_engine_current {τ : Type} (df : τ) (ops : List (SOp τ)) (k : ℕ)
+    (hk : k ∈ (synced ops).2) :
+    k < ((Sess.init df).run ops).engines.length ∧
+    ((Sess.init df).run ops).engines[k]? = some ((Sess.init df).run ops).data :=
+  (sinv_run ops (Sess.init df) (0, []) (sinv_init df)).2 k hk
+
+/-- **the log likelihood such an object reports is the property's Σ w·ℓ over the rows of the CURRENT
+table** (what `simulate`, which is handed `database.data` at every call, reports row by row), divided by
+the current sample size when `scaled` — for every thread count.
+PARTIAL (guard `k ∈ synced`): an object built *before* the last edit keeps the table of its
+construction in its engine (`session_stale_witness`). -/
+theorem session_loglike_partial {τ : Type} (df : τ) (ops : List (SOp τ)) (k T : ℕ)
+    (rowsOf : τ → List (ℝ × ℝ)) (weighted scaled : Bool) (hk : k ∈ (synced ops).2) (hT : 1 ≤ T)
+    (hne : rowsOf ((Sess.init df).run ops).data ≠ []) :
+    ((Sess.init df).run ops).reportedLoglike k rowsOf weighted T scaled
+      = if scaled then tableSum weighted (rowsOf ((Sess.init df).run ops).data)
+            / ((rowsOf ((Sess.init df).run ops).data).length : ℝ)
+        else tableSum weighted (rowsOf ((Sess.init df).run ops).data) := by
+  obtain ⟨h1, h2⟩ := session_engine_current df ops k hk
+  unfold Sess.reportedLoglike
+  have : ((Sess.init df).run ops).engines.getD k ((Sess.init df).run ops).data
+      = ((Sess.init df).run ops).data := by
+    rw [List.getD_eq_getElem?_getD, h2]; rfl
+  rw [this, table_value weighted _ T hne hT]
+  unfold scaledBy
+  cases scaled <;> simp
+
+/-- the guard cannot be dropped: an object built before an edit keeps the table of its construction
+(rows [1,2,3]; the row 2 is removed afterwards) -/
+theorem session_stale_witness :
+    ((Sess.init [1, 2, 3]).run [.build true, .edit fun t => t.filter (· != 2)]).engines[0]?
+      ≠ some ((Sess.init [1, 2, 3]).run [.build true, .edit fun t => t.filter (· != 2)]).data := by
+  decide
+
+/-- `fullData` stops following `data` once an object was built: it is not the table of the data set
+(the engine must be refilled from `data`, never from `fullData`) -/
+theorem fullData_not_current :
+    ((Sess.init [1, 2, 3]).run [.build true, .edit fun t => t.filter (· != 2)]).fullData = [1, 2, 3] ∧
+    ((Sess.init [1, 2, 3]).run [.build true, .edit fun t => t.filter (· != 2)]).data = [1, 3] ∧
+    ((Sess.init [1, 2, 3]).run [.edit fun t => t.filter (· != 2)]).fullData = [1, 3] := by
+  decide
+
+-- a history of the kind the theorem covers: first object, edit, second object, bootstrap, call
+example : (synced (τ := List ℕ) [.build true, .edit fun t => t.map (· * 2), .build true,
+    .estimate 1 (some [fun t => t.take 1, fun t => t.reverse]), .query 1]).2 = [1, 1] := by decide
+example : ((Sess.init [1, 2, 3]).run [.build true, .edit fun t => t.map (· * 2), .build true,
+    .estimate 1 (some [fun t => t.take 1, fun t => t.reverse]), .query 1]).engines
+      = [[1, 2, 3], [2, 4, 6]] := by decide
+
+/-! ### round 3 — `Database.split`: estimation / validation sets are parts whose values are added -/
+
+/-- `numpy.array_split` after the shuffle: `k` slices which, one after the other, are the shuffled rows
+(no row lost, none taken twice); with at most as many slices as rows none is empty -/
+theorem db_split_partition {β : Type} (shuffled : List β) (k : ℕ) (hk : 1 ≤ k) :
+    (arraySplit shuffled k).flatten = shuffled ∧ (arraySplit shuffled k).length = k ∧
+    (dbSplit shuffled k).length = k ∧
+    (k ≤ shuffled.length → ∀ p ∈ arraySplit shuffled k, p ≠ []) := by
+  obtain ⟨h1, h2, _⟩ := arraySplit_spec shuffled k hk
+  refine ⟨h1, h2, by simp [dbSplit, h2], fun hkn => arraySplit_nonempty shuffled k hk hkn⟩
+
+/-- **the log likelihoods of the validation sets add up to the log likelihood of the table**, whatever
+the shuffle, the number of slices and the thread counts used for the parts -/
+theorem db_split_validation_sum (b : Bool) (rows shuffled : List (ℝ × ℝ)) (k T : ℕ)
+    (Ts : List (ℝ × ℝ) → ℕ) (hp : rows.Perm shuffled) (hk : 1 ≤ k) (hkn : k ≤ rows.length)
+    (hT : 1 ≤ T) (hTs : ∀ p, 1 ≤ Ts p) :
+    ((arraySplit shuffled k).map fun p => tableLoglike b p (Ts p)).sum = tableLoglike b rows T := by
+  have hlen : shuffled.length = rows.length := hp.length_eq.symm
+  have hne : rows ≠ [] := by
+    intro h; rw [h] at hkn; simp at hkn; omega
+  obtain ⟨hfl, hl, _⟩ := arraySplit_spec shuffled k hk
+  have hparts : arraySplit shuffled k ≠ [] := by
+    intro h; rw [h] at hl; simp at hl; omega
+  have h := split_additive_many b (arraySplit shuffled k) T Ts hparts
+    (arraySplit_nonempty shuffled k hk (by omega)) hT (fun p _ => hTs p)
+  rw [hfl] at h
+  rw [← h]
+  exact perm_invariant b rows shuffled T T hne hp hT hT
+
+/-- **estimation set `i` + validation set `i` = the table**: their log likelihoods add up to the log
+likelihood of the table (`k ≥ 2` slices, so that the estimation set is not empty) -/
+theorem db_split_estimation_validation (b : Bool) (rows shuffled : List (ℝ × ℝ)) (k i T T₁ T₂ : ℕ)
+    (hp : rows.Perm shuffled) (hk : 2 ≤ k) (hkn : k ≤ rows.length) (hi : i < k)
+    (hT : 1 ≤ T) (hT₁ : 1 ≤ T₁) (hT₂ : 1 ≤ T₂) :
+    tableLoglike b (othersOf (arraySplit shuffled k) i) T₁
+      + tableLoglike b ((arraySplit shuffled k).getD i []) T₂ = tableLoglike b rows T := by
+  have hlen : shuffled.length = rows.length := hp.length_eq.symm
+  obtain ⟨hfl, hl, _⟩ := arraySplit_spec shuffled k (by omega)
+  have hne := arraySplit_nonempty shuffled k (by omega) (by omega)
+  have hi' : i < (arraySplit shuffled k).length := by omega
+  have hval : (arraySplit shuffled k).getD i [] ≠ [] := by
+    rw [List.getD_eq_getElem?_getD, List.getElem?_eq_getElem hi']
+    exact hne _ (List.getElem_mem hi')
+  -- another slice exists and lies in the estimation set
+  have hest : othersOf (arraySplit shuffled k) i ≠ [] := by
+    unfold othersOf
+    intro h
+    have hall : ∀ p ∈ (arraySplit shuffled k).take i ++ (arraySplit shuffled k).drop (i + 1), p = [] := by
+      have h' : (∀ l ∈ List.take i (arraySplit shuffled k), l = []) ∧
+          ∀ l ∈ List.drop (i + 1) (arraySplit shuffled k), l = [] := by
+        simpa [List.flatten_eq_nil_iff] using h
+      intro p hp
+      rcases List.mem_append.1 hp with h1 | h1
+      · exact h'.1 p h1
+      · exact h'.2 p h1
+    have hlen2 : ((arraySplit shuffled k).take i ++ (arraySplit shuffled k).drop (i + 1)).length = k - 1 := by
+      simp [hl]; omega
+    cases hq : (arraySplit shuffled k).take i ++ (arraySplit shuffled k).drop (i + 1) with
+    | nil => rw [hq] at hlen2; simp at hlen2; omega
+    | cons q qs =>
+      have hqm : q ∈ (arraySplit shuffled k).take i ++ (arraySplit shuffled k).drop (i + 1) := by
+        rw [hq]; exact List.mem_cons_self
+      have hq0 := hall q hqm
+      have : q ∈ arraySplit shuffled k := by
+        rcases List.mem_append.1 hqm with h1 | h1
+        · exact List.mem_of_mem_take h1
+        · exact List.mem_of_mem_drop h1
+      exact hne q this hq0
+  have hperm := others_append_perm (arraySplit shuffled k) i hi'
+  rw [hfl] at hperm
+  have hrows : rows ≠ [] := by
+    intro h; rw [h] at hkn; simp at hkn; omega
+  rw [← split_additive b _ _ T T₁ T₂ hest hval hT hT₁ hT₂]
+  exact perm_invariant b rows _ T T hrows (hp.trans hperm.symm) hT hT
+
+example : arraySplit [10, 11, 12, 13, 14, 15, 16] 3 = [[10, 11, 12], [13, 14], [15, 16]] := by decide
+example : dbSplit [3, 0, 2, 1, 4] 2 = [([1, 4], [3, 0, 2]), ([3, 0, 2], [1, 4])] := by decide
 
 end C04
